@@ -622,6 +622,13 @@ namespace cgi {
 
 			env_.add("REQUEST_METHOD",request_method_);
 
+			if(env_.get("HTTP_TRANSFER_ENCODING")) {
+				// request bodies with a transfer coding are not supported: say so instead of
+				// serving the request without its body and reading the body as the next request
+				error_response("HTTP/1.0 501 Not Implemented\r\n\r\n",h);
+				return;
+			}
+
 			if(rewrite_)
 				request_uri_ = rewrite_->rewrite(request_uri_,pool_);
 
